@@ -180,6 +180,16 @@ func (ev *Eval) loopVar(l *Loop, p *ssa.Phi) *Term {
 			ev.loopVars[p] = iv
 			ev.resolveIV(l, p, ev.mergeOps(inits, p, false), step)
 			if l.IV == p {
+				if l.HasCond && l.Canon == nil && l.TestOff == step && preIncrementForm(l, p, nexts[0]) {
+					l.Canon = nexts[0]
+					l.Init = AffAdd(l.Init, ConstInt(step), 1)
+					l.TestOff -= step
+				}
+				if l.Canon != nil {
+					shifted := AffAdd(iv, ConstInt(l.Step), -1)
+					ev.loopVars[p] = shifted
+					return shifted
+				}
 				return iv
 			}
 		}
@@ -302,6 +312,17 @@ func (ev *Eval) compute(v0 ssa.Value) *Term {
 			return &Term{K: KUn, Name: v.Op.String(), Args: []*Term{T(v.X)}}
 		}
 	case *ssa.BinOp:
+		// the incremented counter of a range-with-index loop is the loop's canonical induction variable
+		if l := loopWithHeader(ev.Loops(), v.Block()); l != nil {
+			for _, side := range []ssa.Value{v.X, v.Y} {
+				if p, ok := side.(*ssa.Phi); ok && p.Block() == v.Block() {
+					ev.loopVar(l, p)
+				}
+			}
+			if l.Canon == ssa.Value(v) {
+				return &Term{K: KIndVar, Loop: l, Phi: l.IV}
+			}
+		}
 		return ev.binop(v)
 	case *ssa.Convert:
 		x := T(v.X)
@@ -433,7 +454,27 @@ func (ev *Eval) phi(p *ssa.Phi) *Term {
 	}
 	init := ev.mergeOps(inits, p, false)
 	next := ev.mergeOps(nexts, p, true)
+	ev.EnsureIV(l) // the counter of an accumulating loop may be unused in its body: resolve the loop's range all the same
 	return normaliseMu(l, p, init, next, lv)
+}
+
+// EnsureIV resolves the loop's induction variable (if it has one) even when no term has asked for the counter yet.
+func (ev *Eval) EnsureIV(l *Loop) {
+	if l == nil || l.IV != nil {
+		return
+	}
+	for _, in := range l.Header.Instrs {
+		p, ok := in.(*ssa.Phi)
+		if !ok {
+			break
+		}
+		if isIntType(p.Type()) {
+			ev.loopVar(l, p)
+			if l.IV != nil {
+				return
+			}
+		}
+	}
 }
 
 // rotatedExitPhi: below a bottom-tested loop the exit block merges [entry guard false: init, latch: next]; that merge is the
@@ -526,6 +567,23 @@ func (ev *Eval) gated(p *ssa.Phi) *Term {
 }
 
 // stepOf recognises next = phi ± c.
+// preIncrementForm: next = p + step is computed in the header before the test, and p has no other use.
+func preIncrementForm(l *Loop, p *ssa.Phi, next ssa.Value) bool {
+	nb, ok := next.(*ssa.BinOp)
+	if !ok || nb.Block() != l.Header {
+		return false
+	}
+	for _, r := range *p.Referrers() {
+		if _, dbg := r.(*ssa.DebugRef); dbg {
+			continue
+		}
+		if r != ssa.Instruction(nb) {
+			return false
+		}
+	}
+	return true
+}
+
 func stepOf(next ssa.Value, p *ssa.Phi) (int64, bool) {
 	b, ok := next.(*ssa.BinOp)
 	if !ok {
@@ -823,6 +881,47 @@ func (ev *Eval) call(c *ssa.Call) *Term {
 		}
 		ch := ev.child(c, callee, ev.args(com.Args, c), free)
 		return ch.Return()
+	}
+	// slices.Concat(a, b, …) / slices.Clone(a) / bytes.Clone(a): fresh slice with the operands' elements in order
+	gen := callee
+	if o := callee.Origin(); o != nil {
+		gen = o // an instantiated generic has no package of its own
+	}
+	if gen.Pkg != nil && (gen.Pkg.Pkg.Path() == "slices" || gen.Pkg.Pkg.Path() == "bytes") {
+		base := gen.Name()
+		if i := strings.Index(base, "["); i >= 0 {
+			base = base[:i]
+		}
+		args := ev.args(com.Args, c)
+		if base == "Clone" && len(args) == 1 {
+			return Seq(Parts(args[0])...)
+		}
+		if base == "Concat" && gen.Pkg.Pkg.Path() == "slices" && len(args) == 1 {
+			var parts []*Term
+			ok := true
+			for _, p := range Parts(args[0]) {
+				if p.K != KElem {
+					ok = false
+					break
+				}
+				parts = append(parts, Parts(p.Args[0])...)
+			}
+			if ok {
+				return Seq(parts...)
+			}
+		}
+	}
+	// encoding/binary's append-style encoders: order.AppendUintN(dst, v) = dst ‖ N/8 bytes of v in that order
+	if callee.Pkg != nil && callee.Pkg.Pkg.Path() == "encoding/binary" && strings.HasPrefix(callee.Name(), "AppendUint") && len(com.Args) == 3 {
+		args := ev.args(com.Args, c)
+		order := "LittleEndian"
+		if strings.Contains(strings.ToLower(typeString(com.Args[0].Type())), "bigendian") {
+			order = "BigEndian"
+		}
+		enc := &Term{K: KCall, Name: "binary." + order + ".bytes" + strings.TrimPrefix(callee.Name(), "AppendUint"), Args: []*Term{args[2]}}
+		parts := append([]*Term{}, Parts(args[1])...)
+		parts = append(parts, Splice(enc))
+		return Seq(parts...)
 	}
 	return &Term{K: KCall, Name: CalleeName(callee), Args: ev.args(com.Args, c), Instr: c, N: ev.E.serialFor(ev, c)}
 }
